@@ -133,6 +133,9 @@ func TestVerifBoundedC07(t *testing.T) {
 	fails := 0
 	checked := 0
 	for _, d := range descs {
+		// a fatal runtime error (stack overflow, out of memory) cannot be recovered: the marker names
+		// the description that was being generated when the process died (see run.sh)
+		fmt.Printf("BOUNDED-START description=%q\n", d)
 		pkgname, out, err, pan := safeGenerate(d)
 		if pan != nil {
 			fails++
